@@ -167,6 +167,7 @@ class V:
     lit: Any = None              # concrete python constant when known (str / int / float / bool)
     tok: list | None = None      # string built by an f-string: list of str | V
     raw: Any = None              # exact z3 Int term of an int-kinded value
+    tail: list | None = None     # list value: the known last elements (Python-side structure)
 
     @property
     def kind(self):
